@@ -29,7 +29,7 @@ def run(chk, repo, tier):
         'caller\'s predecessor list as given. W5: Task(name, fn, *static) never passes more static inputs than fn can '
         'take. NOT decided: dask\'s scheduler (exactly-once, ordering): external code.')
     W1 = chk.rule('W1', 'dask tuple layout (function, *static, *predecessor keys); unique key per task; single sink '
-                        'renamed results', floor=4)
+                        'renamed results', floor=3)
     W2 = chk.rule('W2', 'post-processing of task inputs is positional: context prepended, inputs re-created in order, '
                         'scatter keeps element 0', floor=4)
     W3 = chk.rule('W3', 'the graph given to dask derives from as_dask_dict() of the workflow parameter', floor=2)
@@ -47,66 +47,55 @@ def run(chk, repo, tier):
         raise AnalysisError('Workflow.as_dask_dict not found')
 
     # ------------------------------------------------------------------ W1
-    # (a) value layout
-    stores = [n for n in walk_no_nested(dd.node) if isinstance(n, ast.Assign) and isinstance(n.targets[0], ast.Subscript)]
-    binds = {}
-    for n in walk_no_nested(dd.node):
-        if isinstance(n, ast.Assign) and isinstance(n.targets[0], ast.Name):
-            binds.setdefault(n.targets[0].id, []).append(n)
+    # (a) value layout: the content of the stored tuple, however it is assembled (sa/seqs.py)
+    from sa import reach, seqs, guards as G_
+    cfg = CFG(dd.node)
+    PREDS = ('self._g.predecessors(task)', 'self.get_predecessors(task)')
     graph_stores = []
-    for s_ in stores:
-        v = s_.value
-        if isinstance(v, ast.Name) and v.id in binds and len(binds[v.id]) == 1:
-            v = binds[v.id][0].value
-        if isinstance(v, ast.Tuple):
-            graph_stores.append((s_, v))
+    for n in cfg.nodes.values():
+        if n.kind == 'stmt' and isinstance(n.ast, ast.Assign) and isinstance(n.ast.targets[0], ast.Subscript):
+            v = reach.expand_expr(cfg, n.id, n.ast.value, depth=1) if isinstance(n.ast.value, ast.Name) else n.ast.value
+            if isinstance(v, ast.Tuple):
+                graph_stores.append((n, v))
     if not graph_stores:
         raise AnalysisError('W1: no `as_dict[key] = (function, ...)` store found in as_dask_dict')
-    for s_, v in graph_stores:
-        chk.instance(W1, f'value layout {unparse(v)}')
-        ok = len(v.elts) == 2 and unparse(v.elts[0]) == 'task.function' and isinstance(v.elts[1], ast.Starred) \
-            and isinstance(v.elts[1].value, ast.Name)
+    key_dicts = set()
+    for n, v in graph_stores:
+        seq = seqs.sequence_of(cfg, n.id, v)
+        chk.instance(W1, f'value layout {unparse(v)} = {seq}')
+        # the loop variable over the tasks: `task` in every accepted form (for task in ...)
+        ok = len(seq) == 3 and seq[0] == ('elem', 'task.function') and seq[1] == ('star', 'task.task_input') \
+            and seq[2][0] == 'map' and seq[2][2] in PREDS and not seq[2][3]
+        kd = None
+        if ok:
+            try:
+                e = ast.parse(seq[2][1], mode='eval').body
+            except SyntaxError:
+                e = None
+            ok = isinstance(e, ast.Subscript) and isinstance(e.value, ast.Name) and unparse(e.slice) == '_'
+            if ok:
+                kd = reach.alias_root(cfg, n.id, e.value.id)
+                key_dicts.add(kd)
         if not ok:
-            chk.violation(W1, rel, dd.qualname, unparse(v),
-                          'the dask task tuple is not (task.function, *inputs)', line=s_.lineno,
-                          witness='any workflow: dask calls the wrong callable or passes the function as an argument')
-            continue
-        lst = v.elts[1].value.id
-        cfg = CFG(dd.node)
-        inits = [n for n in cfg.nodes.values() if isinstance(n.ast, ast.Assign) and isinstance(n.ast.targets[0], ast.Name)
-                 and n.ast.targets[0].id == lst]
-        exts = [n for n in cfg.nodes.values() if isinstance(n.ast, ast.Expr) and isinstance(n.ast.value, ast.Call)
-                and isinstance(n.ast.value.func, ast.Attribute) and isinstance(n.ast.value.func.value, ast.Name)
-                and n.ast.value.func.value.id == lst]
-        auga = [n for n in cfg.nodes.values() if isinstance(n.ast, ast.AugAssign) and isinstance(n.ast.target, ast.Name)
-                and n.ast.target.id == lst]
-        chk.instance(W1, f'{lst}: init {[n.text() for n in inits]} then {[n.text() for n in exts + auga]}')
-        good_init = len(inits) == 1 and unparse(inits[0].ast.value) in ('list(task.task_input)', '[*task.task_input]')
-        good_ext = len(exts) + len(auga) == 1
-        pred_src = None
-        if good_ext:
-            e = (exts + auga)[0]
-            arg = e.ast.value.args[0] if exts else e.ast.value
-            good_ext = (not exts or e.ast.value.func.attr == 'extend')
-            gens = [g for g in ast.walk(arg) if isinstance(g, ast.comprehension)]
-            if len(gens) == 1 and isinstance(arg, (ast.GeneratorExp, ast.ListComp)):
-                pred_src = unparse(gens[0].iter)
-                elt = arg.elt
-                good_ext = good_ext and not gens[0].ifs and isinstance(elt, ast.Subscript) \
-                    and unparse(elt.value) == 'ids' and unparse(elt.slice) == unparse(gens[0].target)
+            if len(seq) < 1 or seq[0] != ('elem', 'task.function'):
+                chk.violation(W1, rel, dd.qualname, unparse(v),
+                              'the dask task tuple is not (task.function, *inputs)', line=n.line,
+                              witness='any workflow: dask calls the wrong callable or passes the function as an argument')
             else:
-                good_ext = False
-            good_ext = good_ext and pred_src in ('self._g.predecessors(task)', 'self.get_predecessors(task)')
-            good_ext = good_ext and inits and cfg.dominates(inits[0].id, e.id)
-        if not (good_init and good_ext):
-            chk.violation(W1, rel, dd.qualname, f'{lst} construction',
-                          'the argument list is not [*task.task_input] followed by the keys of all predecessors in '
-                          'graph order', line=s_.lineno,
-                          witness='a task with one static input and two predecessors: it is called with arguments in '
-                                  'another order / without one predecessor result')
-    # (b) unique keys
-    idst = [n for n in walk_no_nested(dd.node) if isinstance(n, ast.Assign) and isinstance(n.targets[0], ast.Subscript)
-            and unparse(n.targets[0].value) == 'ids' and not isinstance(n.value, ast.Constant)]
+                chk.violation(W1, rel, dd.qualname, f'{unparse(v)} construction',
+                              'the argument list is not [*task.task_input] followed by the keys of all predecessors in '
+                              f'graph order (found {seq[1:]})', line=n.line,
+                              witness='a task with one static input and two predecessors: it is called with arguments in '
+                                      'another order / without one predecessor result')
+    # (b) unique keys: the stores into the key dictionary (the one the predecessor keys are read from)
+    idst = []
+    for n in cfg.nodes.values():
+        a = n.ast
+        if n.kind == 'stmt' and isinstance(a, ast.Assign) and isinstance(a.targets[0], ast.Subscript) \
+                and isinstance(a.targets[0].value, ast.Name) and not isinstance(a.value, ast.Constant) \
+                and (reach.alias_root(cfg, n.id, a.targets[0].value.id) in key_dicts
+                     or (not key_dicts and a.targets[0].value.id == 'ids')):
+            idst.append(a)
     loops = [n for n in walk_no_nested(dd.node) if isinstance(n, ast.For)]
     if not idst:
         raise AnalysisError('W1: key assignment ids[task] = ... not found')
@@ -118,25 +107,45 @@ def run(chk, repo, tier):
                 if isinstance(c, ast.Call) and (dotted(c.func) or '').endswith('uuid4'):
                     per_iter = True
             # or a loop index from enumerate / a counter incremented in the loop
+            loopvars = names(loop.target)
             if isinstance(loop.iter, ast.Call) and dotted(loop.iter.func) == 'enumerate' \
-                    and names(loop.target) & names(a.value) - {'task'}:
+                    and isinstance(loop.target, ast.Tuple) and names(loop.target.elts[0]) & names(a.value):
                 per_iter = True
             uses_id = any(isinstance(c, ast.Call) and dotted(c.func) == 'id' for c in ast.walk(a.value))
             per_iter = per_iter or uses_id
+            del loopvars
         chk.instance(W1, f'key {unparse(a.value)} unique per task: {per_iter}')
         if not per_iter:
             chk.violation(W1, rel, dd.qualname, unparse(a),
                           'the dask key of a task has no component that is unique per task', line=a.lineno,
                           witness='a fan-out of several tasks with the same name (built in a loop): they collapse onto '
                                   'one key, only one of them runs and the join receives its result several times')
-    # (c) single sink
+    # (c) single sink: the store of 'results' happens only when there is exactly one output task, and the other
+    #     outcome of that test raises
+    def one_sink(at):
+        def atom(e):
+            if isinstance(e, ast.Compare) and len(e.ops) == 1 and isinstance(e.ops[0], (ast.Eq, ast.NotEq)) \
+                    and isinstance(e.comparators[0], ast.Constant) and e.comparators[0].value == 1 \
+                    and isinstance(e.left, ast.Call) and dotted(e.left.func) == 'len' and e.left.args:
+                x = reach.expand_expr(cfg, at, e.left.args[0])
+                if 'output_tasks' in unparse(x):
+                    return isinstance(e.ops[0], ast.Eq)
+            return None
+        return atom
     sink_ok = False
-    for n in walk_no_nested(dd.node):
-        if isinstance(n, ast.If) and 'output_tasks' in unparse(n.test) and '== 1' in unparse(n.test).replace(' ', ' '):
-            assigns_results = any(isinstance(x, ast.Assign) and isinstance(x.value, ast.Constant)
-                                  and x.value.value == 'results' for x in n.body)
-            raises = any(isinstance(x, ast.Raise) for x in n.orelse)
-            sink_ok = assigns_results and raises
+    rstores = [n for n in cfg.nodes.values() if n.kind == 'stmt' and isinstance(n.ast, ast.Assign)
+               and isinstance(n.ast.value, ast.Constant) and n.ast.value.value == 'results']
+    rets = [n.id for n in cfg.nodes.values() if n.kind == 'return'] + [cfg.exit]
+    for st_ in rstores:
+        for t in [n for n in cfg.nodes.values() if n.kind == 'test' and n.ast is not None]:
+            lab = G_.edge_label(t.ast, one_sink(t.id), G_.resolver(cfg, t.id))
+            if lab and cfg.edge_dominates(t.id, lab, st_.id):
+                other = 'false' if lab == 'true' else 'true'
+                away = set()
+                for s2 in cfg.succ(t.id, [other]):
+                    away |= cfg.reachable(s2, labels_excluded=())
+                raises = any(isinstance(cfg.nodes[x].ast, ast.Raise) for x in away) and not (away & set(rets))
+                sink_ok = sink_ok or raises
     chk.instance(W1, f'single sink renamed results else raise: {sink_ok}')
     if not sink_ok:
         chk.violation(W1, rel, dd.qualname, 'sink handling',
@@ -147,20 +156,47 @@ def run(chk, repo, tier):
     ic = wm.functions.get('insert_context')
     if ic is None:
         raise AnalysisError('insert_context not found')
-    reps = [c for c in calls_in(ic.node) if isinstance(c.func, ast.Attribute) and c.func.attr == 'replace']
+    cfg = CFG(ic.node)
+    reps = [c for c in calls_in(ic.node) if isinstance(c.func, ast.Attribute) and c.func.attr == 'replace'
+            and any(kw.arg == 'task_input' for kw in c.keywords)]
     okc = False
     for c in reps:
+        nid = reach.node_containing(cfg, c)
         for kw in c.keywords:
-            if kw.arg == 'task_input' and isinstance(kw.value, ast.Tuple) and len(kw.value.elts) == 2 \
-                    and isinstance(kw.value.elts[0], ast.Name) and kw.value.elts[0].id == 'context' \
-                    and isinstance(kw.value.elts[1], ast.Starred) and unparse(kw.value.elts[1].value) == 'task.task_input':
+            if kw.arg == 'task_input' and seqs.sequence_of(cfg, nid, kw.value) == [('elem', 'context'),
+                                                                                   ('star', 'task.task_input')]:
                 okc = True
     chk.instance(W2, f'insert_context: task_input=(context, *task.task_input): {okc}')
     if not okc:
         chk.violation(W2, rel, ic.qualname, unparse(reps[0]) if reps else 'no replace',
                       'the context is not prepended to the static inputs', line=ic.node.lineno,
                       witness='a task function f(context, x): it receives x as context')
-    guard = any(isinstance(n, ast.If) and "parameters[0] == 'context'" in unparse(n.test) for n in walk_no_nested(ic.node))
+
+    def first_param_is_context(at):
+        # `parameters[0] == 'context'`, `list(params)[:1] == ['context']`, `next(iter(params), None) == 'context'`, in
+        # either polarity, where params comes from inspect.signature(...)
+        def atom(e):
+            if not (isinstance(e, ast.Compare) and len(e.ops) == 1 and isinstance(e.ops[0], (ast.Eq, ast.NotEq))):
+                return None
+            sides = [e.left, e.comparators[0]]
+
+            def is_ctx(x):
+                return (isinstance(x, ast.Constant) and x.value == 'context') or (
+                    isinstance(x, (ast.List, ast.Tuple)) and len(x.elts) == 1 and is_ctx(x.elts[0]))
+            for a_, b_ in (sides, sides[::-1]):
+                if is_ctx(a_):
+                    txt = unparse(reach.expand_expr(cfg, at, b_)).replace(' ', '')
+                    if 'signature(' in txt and ('[0]' in txt or '[:1]' in txt or 'next(iter(' in txt):
+                        return isinstance(e.ops[0], ast.Eq)
+            return None
+        return atom
+    guard = False
+    for c in reps:
+        nid = reach.node_containing(cfg, c)
+        for t in [n for n in cfg.nodes.values() if n.kind == 'test' and n.ast is not None]:
+            lab = G_.edge_label(t.ast, first_param_is_context(t.id), G_.resolver(cfg, t.id))
+            if lab and nid is not None and cfg.edge_dominates(t.id, lab, nid):
+                guard = True
     chk.instance(W2, f'insert_context: only for functions whose first parameter is named context: {guard}')
     if not guard:
         chk.violation(W2, rel, ic.qualname, 'guard on first parameter name',
@@ -172,6 +208,18 @@ def run(chk, repo, tier):
         raise AnalysisError('execute_workflow not found')
     inner = [lp for lp in walk_no_nested(ew.node) if isinstance(lp, ast.For) and 'task_input' in unparse(lp.iter)]
     chk.instance(W2, f'execute_workflow: {len(inner)} loop(s) over task.task_input')
+    ecfg = CFG(ew.node)
+    for c in [c for c in calls_in(ew.node) if isinstance(c.func, ast.Attribute) and c.func.attr == 'replace'
+              and any(kw.arg == 'task_input' for kw in c.keywords)]:
+        nid = reach.node_containing(ecfg, c)
+        sq = seqs.sequence_of(ecfg, nid, next(kw.value for kw in c.keywords if kw.arg == 'task_input'))
+        direct = sq == [('star', 'task.task_input')]
+        chk.instance(W2, f'execute_workflow: task_input re-created as {sq}')
+        if not direct and not inner:
+            chk.violation(W2, em.rel, ew.qualname, unparse(c)[:100],
+                          'the static inputs of a re-created task are not the original ones in the original order',
+                          line=c.lineno,
+                          witness='a task with static inputs (model, 1, "x"): its function is called with other arguments')
     for lp in inner:
         cfg = CFG(ast.FunctionDef(name='_', args=ew.node.args, body=lp.body, decorator_list=[], lineno=lp.lineno,
                                   col_offset=0, end_lineno=lp.end_lineno, end_col_offset=0))
@@ -194,11 +242,14 @@ def run(chk, repo, tier):
     if sc is None:
         raise AnalysisError('_scatter_computation not found')
     tup = [n for n in walk_no_nested(sc.node) if isinstance(n, ast.Return) and isinstance(n.value, ast.Tuple)]
-    def _positional_map(e):
-        return isinstance(e, ast.Call) and dotted(e.func) == 'map' and len(e.args) == 2 \
-            and unparse(e.args[1]) == 'computation[1:]'
-    oks = any(len(t.value.elts) == 2 and unparse(t.value.elts[0]) == 'computation[0]'
-              and isinstance(t.value.elts[1], ast.Starred) and _positional_map(t.value.elts[1].value) for t in tup)
+    scfg = CFG(sc.node)
+    oks = False
+    for t in tup:
+        sq = seqs.sequence_of(scfg, reach.node_of(scfg, t), t.value)
+        # (computation[0], <f(_)> for every item of computation[1:], no filter), in any spelling
+        if len(sq) == 2 and sq[0] == ('elem', 'computation[0]') and sq[1][0] == 'map' and sq[1][2] == 'computation[1:]' \
+                and not sq[1][3] and '_scatter_computation(' in sq[1][1] and '_' in names(ast.parse(sq[1][1], mode='eval')):
+            oks = True
     chk.instance(W2, f'_scatter_computation keeps element 0 and maps the rest positionally: {oks}')
     if not oks:
         chk.violation(W2, om.rel, sc.qualname, unparse(tup[0].value) if tup else 'no tuple return',
